@@ -2,7 +2,7 @@
    Property theorems only; they assemble the per-construct results. Partial: see the note. *)
 From Coq Require Import List String ZArith NArith Bool Lia.
 From Verif Require Import Base Grid Select SelectProofs Shard Exec Compose StreamWF Agg AggProofs.
-From Verif Require Bin BinProofs EndToEnd.
+From Verif Require Bin BinProofs EndToEnd Trees.
 Import ListNotations.
 Open Scope Z_scope.
 
@@ -88,13 +88,13 @@ Proof. cbv zeta. split; vm_compute; reflexivity. Qed.
 Theorem C01_join_trees :
   forall (cf : cfg) (w : window),
   (0 < c_shards cf)%nat -> (0 < c_batch cf)%nat -> 0 <= c_lookback cf -> wf_window w -> Bin.noT < w_start w ->
-  forall t, EndToEnd.jok t ->
+  forall t, Trees.jok t ->
   exists f,
-    EndToEnd.jrun cf w t = inl (map (fun ts => (ts, f ts)) (grid w)) /\
-    forall ts, EndToEnd.good_vec (List.length (EndToEnd.jseries t)) (f ts) /\
-               forall R, EndToEnd.jref (c_lookback cf) t ts = Some R ->
-                         Permutation.Permutation (Bin.labelled Z (EndToEnd.jseries t) (f ts)) R.
-Proof. exact EndToEnd.jtree_matches_reference. Qed.
+    Trees.jrun cf w t = inl (map (fun ts => (ts, f ts)) (grid w)) /\
+    forall ts, Trees.good_vec (List.length (Trees.jseries t)) (f ts) /\
+               forall R, Trees.jref (c_lookback cf) t ts = Some R ->
+                         Permutation.Permutation (Bin.labelled Z (Trees.jseries t) (f ts)) R.
+Proof. exact Trees.jtree_matches_reference. Qed.
 Print Assumptions C01_join_trees.
 
 (* non-vacuity: (foo * on (a) group_left (c) bar) > bool on (a, b) baz *)
@@ -102,17 +102,17 @@ Example C01_join_tree_example :
   let mul (x y : Z) := ((x * y)%Z, true) in
   let gt (x y : Z) := (x, (x >? y)%Z) in
   let b2z (b : bool) := if b then 1 else 0 in
-  let foo := EndToEnd.JLeaf [[(0, 10); (1, 20); (2, 31)]; [(0, 10); (1, 20); (2, 32)]]%N
+  let foo := Trees.JLeaf [[(0, 10); (1, 20); (2, 31)]; [(0, 10); (1, 20); (2, 32)]]%N
                             [[mkS 950 (Some 2); mkS 1040 (Some 3)]; [mkS 990 (Some 5)]] 0 in
-  let bar := EndToEnd.JLeaf [[(0, 11); (1, 20); (3, 40)]]%N [[mkS 980 (Some 10)]] 0 in
-  let baz := EndToEnd.JLeaf [[(0, 12); (1, 20); (2, 31)]; [(0, 12); (1, 20); (2, 32)]]%N
+  let bar := Trees.JLeaf [[(0, 11); (1, 20); (3, 40)]]%N [[mkS 980 (Some 10)]] 0 in
+  let baz := Trees.JLeaf [[(0, 12); (1, 20); (2, 31)]; [(0, 12); (1, 20); (2, 32)]]%N
                             [[mkS 1000 (Some 25)]; [mkS 1000 (Some 25)]] 0 in
-  let inner := EndToEnd.JJoin (EndToEnd.mkJP mul b2z true [1%N] [3%N] Bin.ManyToOne false true) foo bar in
-  let t := EndToEnd.JJoin (EndToEnd.mkJP gt b2z true [1%N; 2%N] [] Bin.OneToOne true false) inner baz in
-  EndToEnd.jok t /\
-  EndToEnd.jrun (mkCfg 2 2 100) (mkW 1000 1030 30) t =
+  let inner := Trees.JJoin (Trees.mkJP mul b2z true [1%N] [3%N] Bin.ManyToOne false true) foo bar in
+  let t := Trees.JJoin (Trees.mkJP gt b2z true [1%N; 2%N] [] Bin.OneToOne true false) inner baz in
+  Trees.jok t /\
+  Trees.jrun (mkCfg 2 2 100) (mkW 1000 1030 30) t =
     inl [(1000, [(0%nat, 0); (1%nat, 1)]); (1030, [(0%nat, 0); (1%nat, 1)])] /\
-  EndToEnd.jref 100 t 1000 = Some [([(1, 20); (2, 31)]%N, 0); ([(1, 20); (2, 32)]%N, 1)].
+  Trees.jref 100 t 1000 = Some [([(1, 20); (2, 31)]%N, 0); ([(1, 20); (2, 32)]%N, 1)].
 Proof.
   cbv zeta. split; [|split; vm_compute; reflexivity].
   simpl. repeat split; try reflexivity; try (repeat constructor; simpl; lia);
